@@ -120,6 +120,26 @@ type Peer struct {
 	Done    chan struct{} // closed when the read loop ended
 	rxCount map[string]int
 	rng     *rand.Rand
+	serving bool
+}
+
+// tryAttach reserves the peer for a new connection: it fails while an earlier
+// connection is still being served, and re-arms Ready/Done after one ended.
+func (p *Peer) tryAttach(c *Conn) bool {
+	p.mu.Lock()
+	defer p.mu.Unlock()
+	if p.conn != nil {
+		select {
+		case <-p.Done:
+			p.Ready = make(chan struct{})
+			p.Done = make(chan struct{})
+			p.serving = false
+		default:
+			return false
+		}
+	}
+	p.conn = c
+	return true
 }
 
 // NewPeer creates a peer with full services.
@@ -241,6 +261,7 @@ func summarize(m wire.Message) string {
 func (p *Peer) Serve(conn *Conn) {
 	p.mu.Lock()
 	p.conn = conn
+	p.serving = true
 	ready, done := p.Ready, p.Done
 	p.mu.Unlock()
 	defer close(done)
